@@ -80,7 +80,7 @@ def load_crate():
 def extract(srcs):
     structs, impls, traits = {}, [], {}
     for f, s in srcs.items():
-        for m in re.finditer(r"pub struct (\w+)\s*(<[^{;]*?>)?\s*(where[^{]*)?\{(.*?)\n\}", s, re.S):
+        for m in re.finditer(r"(?:pub(?:\([^)]*\))?\s+)?struct (\w+)\s*(<[^{;]*?>)?\s*(where[^{]*)?\{(.*?)\n\}", s, re.S):
             name, gen, where, body = m.group(1), m.group(2) or "<>", m.group(3) or "", m.group(4)
             params, order = parse_generics(gen[1:-1])
             for k, v in parse_where(where[5:] if where else "").items():
@@ -144,6 +144,9 @@ def required(ftype, auto, tparams):
         # thread to thread (moved out / mutated by whichever thread holds the reservation) -> Send for both
         p = m.group(1) or m.group(2) or m.group(3)
         return [("Send", p)] if p in tparams else []
+    m = re.fullmatch(r"\*(?:mut|const)(\w+)", t)
+    if m:  # an owning raw pointer to elements: behaves like the elements themselves
+        return [(auto, m.group(1))] if m.group(1) in tparams else []
     m = re.fullmatch(r"Range<(\w+)>", t)
     if m:
         return [(auto, m.group(1))] if m.group(1) in tparams else []
@@ -212,6 +215,38 @@ fn main() {
     });
 }
 '''
+
+
+def generic_probe(im, st, model, src):
+    """A program `assert_<trait>::<Struct<args>>()` with every type parameter that the counterexample makes
+    non-Send an `Rc<usize>` (non-Sync only: `Cell<usize>`). None if the struct has other bounds."""
+    m = re.search(r"struct " + im["struct"] + r"\s*(<[^{;]*?>)?\s*(where[^{]*)?\{", src, re.S)
+    if not m:
+        return None
+    gen = (m.group(1) or "<>")[1:-1]
+    args = []
+    for item in split_top(gen):
+        if item.startswith("'"):
+            args.append("'static")
+        elif item.startswith("const "):
+            args.append("1")
+        else:
+            name, _, b = item.partition(":")
+            name = name.strip()
+            bounds = [base_trait(x) for x in split_top(b, "+")] if b.strip() else []
+            bounds += [base_trait(x) for x in st["params"].get(name, [])]
+            if any(x not in ("Send", "Sync", "Clone", "Copy", "") for x in bounds):
+                return None
+            if model.get(f"Send_{name}", True) is False:
+                args.append("std::rc::Rc<usize>")
+            elif model.get(f"Sync_{name}", True) is False:
+                args.append("std::cell::Cell<usize>")
+            else:
+                args.append("usize")
+    ty = f"orx_concurrent_iter::{im['struct']}<{', '.join(args)}>" if args else f"orx_concurrent_iter::{im['struct']}"
+    tr = im["trait"]
+    return (f"// generated by /verif/driver/extra.py: must NOT compile if the crate's unsafe impl {tr} is sound\n"
+            f"fn assert_auto<X: {tr}>() {{}}\nfn main() {{\n    assert_auto::<{ty}>();\n}}\n")
 
 
 def compile_probe(name, code):
@@ -296,7 +331,18 @@ def c14_type(prop, tier, kf):
         open(os.path.join(rdir, "query.smt2"), "w").write(script)
         json.dump({"property": prop, "impl": tag, "counterexample": model, "missing": missing, "what": what},
                   open(os.path.join(rdir, "replay.json"), "w"), indent=1)
-        confirmed = True
+        confirmed = False
+        if im["struct"] != "ConIterOfIter":
+            # generic replay: instantiate the struct with a non-thread-safe parameter and ask the compiler
+            # whether it has the auto trait (it must NOT, so a program that compiles confirms the finding)
+            probe = generic_probe(im, st, model, srcs[st["file"]])
+            if probe is None:
+                res["inconclusive"].append(f"C14/TYPE: {what}; no client program could be generated to replay it")
+                continue
+            ok_bad, log_bad = compile_probe("probe_auto_trait", probe)
+            open(os.path.join(rdir, "probe_auto_trait.rs"), "w").write(probe)
+            open(os.path.join(rdir, "compile.log"), "w").write(f"probe compiles (= the type wrongly has the auto trait): {ok_bad}\n{log_bad}")
+            confirmed = ok_bad
         if im["struct"] == "ConIterOfIter":
             ok_bad, log_bad = compile_probe("probe_not_send", PROBE_ITER)
             ok_twin, log_twin = compile_probe("probe_twin", TWIN_ITER)
